@@ -28,24 +28,33 @@ fn c14_header_totals_bounded() {
     kani::cover!(count == 6, "cover.full");
 }
 
-/// C14: without --isolate roots `sort_by_path` orders the paths of a group ascending (an order that depends only on the
-/// set of paths) and loses or duplicates none (bounded stand-in: 3 files in one directory, one-byte names).
+/// C14: without --isolate roots the order in which `sort_by_path` lists the paths of a group depends only on the SET of
+/// paths - every permutation of the same files ends in the same order - and no path is lost or duplicated (bounded
+/// stand-in: 3 files with distinct one-byte names in one directory, all 6 input orders against the identity).
 #[kani::proof]
 #[kani::unwind(8)]
 fn c14_sort_by_path_no_roots_bounded() {
     use crate::path::verif_path::{p2, tag};
     let n: [u8; 3] = [kani::any(), kani::any(), kani::any()];
     kani::assume(n[0] != 0 && n[1] != 0 && n[2] != 0 && n[0] != b'/' && n[1] != b'/' && n[2] != b'/');
+    kani::assume(n[0] != n[1] && n[1] != n[2] && n[0] != n[2]); // the paths of a group are distinct
+    const PERMS: [[usize; 3]; 6] = [[0, 1, 2], [0, 2, 1], [1, 0, 2], [1, 2, 0], [2, 0, 1], [2, 1, 0]];
+    let k: usize = kani::any();
+    kani::assume(k < 6);
     let fi = |i: usize| FileInfo { path: p2(b"d", &[n[i]]), id: FileId { device: 1, inode: i as _ }, len: FileLen(1), location: 0 };
-    let mut g = FileGroup { file_len: FileLen(1), file_hash: FileHash::from(&[0u8; 16][..]), files: vec![fi(0), fi(1), fi(2)] };
+    let group = |o: [usize; 3]| FileGroup { file_len: FileLen(1), file_hash: FileHash::from(&[0u8; 16][..]), files: vec![fi(o[0]), fi(o[1]), fi(o[2])] };
+    let mut g = group(PERMS[0]);
+    let mut h = group(PERMS[k]);
     g.sort_by_path(&[]);
-    assert!(g.files.len() == 3, "C14.sort_by_path.no_path_is_lost_or_added");
-    let t = [tag(&g.files[0].path), tag(&g.files[1].path), tag(&g.files[2].path)];
-    assert!(t[0] <= t[1] && t[1] <= t[2], "C14.sort_by_path.paths_are_listed_in_ascending_order");
+    h.sort_by_path(&[]);
+    assert!(g.files.len() == 3 && h.files.len() == 3, "C14.sort_by_path.no_path_is_lost_or_added");
     let ids = [g.files[0].id.inode, g.files[1].id.inode, g.files[2].id.inode];
     assert!(ids[0] != ids[1] && ids[1] != ids[2] && ids[0] != ids[2], "C14.sort_by_path.no_path_is_lost_or_added");
-    assert!(tag(&g.files[0].path) == n[ids[0] as usize] && tag(&g.files[2].path) == n[ids[2] as usize],
+    assert!(tag(&g.files[0].path) == n[ids[0] as usize] && tag(&g.files[1].path) == n[ids[1] as usize] && tag(&g.files[2].path) == n[ids[2] as usize],
             "C14.sort_by_path.every_path_keeps_its_own_file_information");
+    assert!(g.files[0].id.inode == h.files[0].id.inode && g.files[1].id.inode == h.files[1].id.inode && g.files[2].id.inode == h.files[2].id.inode,
+            "C14.sort_by_path.the_order_depends_only_on_the_set_of_paths");
     std::mem::forget(g);
-    kani::cover!(n[0] > n[1] && n[1] > n[2], "cover.reversed_input");
+    std::mem::forget(h);
+    kani::cover!(k == 5 && n[0] > n[1] && n[1] > n[2], "cover.reversed_input");
 }
